@@ -73,8 +73,8 @@ def run(ctx):
                 "all argument quadrants, epochs 1969-2056, times within +-60 d; AIAA-2006-6753 vectors; distinct = distinct (tle, minute)")
     ctx.assumptions += [
         "Spec_SGP4.v / checks/sgp4ref.py are hand transcriptions of Spacetrack Report #3 (s taken as 78/XKMPER + 1; eccentricity clamp and e0 <= 1e-4 convention made explicit)",
-        "proved for the near-earth-normal path with e0 > 1e-4 (leaf 1): coefficients, secular/drag/long-period update, finishing map, every Newton exit (Kepler residual < 1e-12), state and units. The e0 <= 1e-4 and |1+cos i| < 1.5e-12 leaves are in the regenerated model (self-checked) but carry only the coefficient-variant theorem",
-        "not proved: convergence of the Newton iteration within 10 steps (exit 10 returns the last iterate); Lipschitz step from the 1e-12 Kepler residual to the 1 mm claim; binary64 rounding — all sampled by the oracle",
+        "proved for BOTH reachable near-earth-normal leaves (leaf 1: e0 > 1e-4; leaf 3: e0 <= 1e-4 with delta-omega = delta-M = 0): coefficients, secular/drag/long-period update, finishing map, every Newton exit (Kepler residual < 1e-12), uniqueness of the Kepler solution and |Ew - E*| <= 1e-12 / (1 - sqrt eL2), state and units. Leaves 0 and 2 (|1 + cos i| < 1.5e-12) are proved unreachable for inclinations with four decimals (the TLE column)",
+        "not proved: convergence of the Newton iteration within 10 steps (exit 10 returns the last iterate); Lipschitz step from the bound on |Ew - E*| to the 1 mm claim on the position; binary64 rounding -- all sampled by the oracle",
         "translator trusted for 'emitted term = what the code computes over R'; self-checked each run against the interpreter (outcome class and state to 1e-6 km)",
     ]
     numeric.regen(ctx, "astronomy")
